@@ -7,6 +7,7 @@ import (
 	"io"
 	"os"
 	"path/filepath"
+	"sort"
 )
 
 // merge临时目录名称后缀
@@ -53,6 +54,9 @@ func (db *DB) Merge() error {
 	for _, file := range db.olderFiles {
 		mergeFiles = append(mergeFiles, file)
 	}
+	// 按文件 id 升序重写: map 的遍历顺序是随机的, 重写顺序不同则输出文件的装填结果不同,
+	// 同一操作序列下 merge 可能时而成功时而因输出文件数超出而放弃
+	sort.Slice(mergeFiles, func(i, j int) bool { return mergeFiles[i].ID < mergeFiles[j].ID })
 
 	// 由于采用操作临时目录方式, 故允许提前释放锁
 	db.mu.Unlock()
